@@ -101,8 +101,12 @@ TotalOk(x) ==
 
 ---------------------------------------------------------------------------
 (* 2. the corpus: words, typed values and documents (all by index into these tables) *)
-Words == << <<97, 98>>, <<97, 98, 99>>, <<98, 97>>, <<99>>, <<99, 97, 98>> >>   \* ab abc ba c cab (sorted)
-NW == Len(Words)
+\* ab abc ba c cab (sorted), and LW = a word of 45 letters z: the analyzer of the text fields (`default`) drops
+\* words of more than 40 bytes from documents and from queries alike - the words around it keep their positions
+Words == << <<97, 98>>, <<97, 98, 99>>, <<98, 97>>, <<99>>, <<99, 97, 98>>,
+            <<122, 122, 122, 122, 122, 122, 122, 122, 122, 122, 122, 122, 122, 122, 122, 122, 122, 122, 122, 122, 122, 122, 122, 122, 122, 122, 122, 122, 122, 122, 122, 122, 122, 122, 122, 122, 122, 122, 122, 122, 122, 122, 122, 122, 122>> >>
+NW == 5      \* the words queries choose from
+LW == 6      \* the over-long word (only inside phrases and documents)
 \* values of the raw (untokenised) field `tag`:  red   x:y   "a b"   -1   q"r
 Tags == << <<114, 101, 100>>, <<120, 58, 121>>, <<97, 32, 98>>, <<45, 49>>, <<113, 34, 114>> >>
 Digits(n) == IF n < 10 THEN <<48 + n>> ELSE <<48 + (n \div 10), 48 + (n % 10)>>
@@ -136,7 +140,8 @@ Docs == <<
   [title |-> <<5, 4, 1>>, body |-> <<3, 3>>,    tag |-> 4, n |-> 9,     i |-> NoVal, flag |-> 0,     d |-> 4,     ip |-> 1,     b |-> 1,     fc |-> 2,     jk |-> 0, jv |-> 0],
   [title |-> <<>>,        body |-> <<2>>,       tag |-> 0, n |-> 3,     i |-> 1,     flag |-> NoVal, d |-> 2,     ip |-> NoVal, b |-> NoVal, fc |-> NoVal, jk |-> 4, jv |-> 5],
   [title |-> <<1, 3, 4>>, body |-> <<5>>,       tag |-> 5, n |-> 7,     i |-> -2,    flag |-> 1,     d |-> NoVal, ip |-> 2,     b |-> 2,     fc |-> 1,     jk |-> 5, jv |-> 9],
-  [title |-> <<4>>,       body |-> <<4>>,       tag |-> 2, n |-> NoVal, i |-> NoVal, flag |-> NoVal, d |-> 1,     ip |-> NoVal, b |-> NoVal, fc |-> 3,     jk |-> 0, jv |-> 0] >>
+  [title |-> <<4>>,       body |-> <<4>>,       tag |-> 2, n |-> NoVal, i |-> NoVal, flag |-> NoVal, d |-> 1,     ip |-> NoVal, b |-> NoVal, fc |-> 3,     jk |-> 0, jv |-> 0],
+  [title |-> <<1, 6, 4>>, body |-> <<5, 6, 6, 3>>, tag |-> 0, n |-> NoVal, i |-> NoVal, flag |-> NoVal, d |-> NoVal, ip |-> NoVal, b |-> NoVal, fc |-> NoVal, jk |-> 0, jv |-> 0] >>
 ND == Len(Docs)
 DefaultFields == <<"title", "body">>
 
@@ -164,12 +169,15 @@ TextFields(f) == IF f = "" THEN SeqSet(DefaultFields) ELSE {f}
 IsPrefixW(a, b) == Len(Words[a]) <= Len(Words[b]) /\ \A p \in 1..Len(Words[a]) : Words[b][p] = Words[a][p]
 
 \* a phrase in one field: consecutive words; with slop (two words x y): |pos(y) - (pos(x) + 1)| <= slop
+\* A phrase denotes its words AT THE POSITIONS the analyzer gives them: a dropped word (LW) leaves a gap, in
+\* the phrase as in the document (`"ab zz..z c"` = ab, anything or nothing recorded, c: it matches the literal
+\* text and `ab ba c`, not `ab c`).  base = position of the (possibly dropped) first word of the phrase.
 PhraseIn(s, ws, slop, pre) ==
   IF slop = 0 THEN
-    \E p \in 1..Len(s) :
-       /\ p + Len(ws) - 1 <= Len(s)
-       /\ \A k \in 1..Len(ws) :
-            IF pre /\ k = Len(ws) THEN IsPrefixW(ws[k], s[p + k - 1]) ELSE s[p + k - 1] = ws[k]
+    \E base \in (2 - Len(ws))..Len(s) :
+       \A k \in {x \in 1..Len(ws) : ws[x] # LW} :
+            /\ base + k - 1 >= 1 /\ base + k - 1 <= Len(s) /\ s[base + k - 1] # LW
+            /\ IF pre /\ k = Len(ws) THEN IsPrefixW(ws[k], s[base + k - 1]) ELSE s[base + k - 1] = ws[k]
   ELSE \E p, q \in 1..Len(s) :
          /\ s[p] = ws[1] /\ s[q] = ws[2]
          /\ (IF q >= p + 1 THEN q - (p + 1) ELSE (p + 1) - q) <= slop
@@ -246,7 +254,7 @@ M(q, d, conj, sc) ==
     [] q[1] = "facet" -> Present(d.fc) /\ FacetIsPrefix(q[2], d.fc)
     [] q[1] = "jsw"   -> d.jk = q[2]
     [] q[1] = "jsn"   -> d.jk # 0 /\ d.jv = q[2]
-    [] q[1] = "rng"   -> IF q[2] = "title" THEN \E p \in 1..Len(d.title) : InBound(d.title[p], q[3], q[4])
+    [] q[1] = "rng"   -> IF q[2] = "title" THEN \E p \in 1..Len(d.title) : d.title[p] # LW /\ InBound(d.title[p], q[3], q[4])
                          ELSE Present(FieldVal(d, q[2])) /\ InBound(FieldVal(d, q[2]), q[3], q[4])
     [] q[1] = "in"    -> CASE q[2] = "title" -> \E k \in 1..Len(q[3]) : Has(d.title, q[3][k])
                            [] q[2] = "tag"   -> \E k \in 1..Len(q[3]) : d.tag = q[3][k]
